@@ -1,9 +1,11 @@
 (* C13 — the wire rate never exceeds the negotiated ceiling. Statements only.
    Proved: X <= ceiling in every reachable rate-controller state (from C14), a frame of any kind is only
-   started with non-negative credit, and step() caps the credit at round(X * rtt). The real-valued bound
+   started with non-negative credit, step() caps the credit at round(X * rtt), and for a whole flush() of the
+   HalfConnection (ack, data and sync frames, all loops): credit' = credit - bytes emitted exactly, nothing is
+   emitted on a negative credit, and all frames but the last fit in the credit (HcCredit.v). The real-valued bound
    bytes <= ceiling * (interval + rtt) + one frame is checked on the implementation's frames with the
    virtual clock by the oracle; it is not derived here through the float arithmetic (partial). *)
-From UF Require Import Consts Base Frame F64 FrameQueue SendRate HalfConn HcLemmas SendRateProofs.
+From UF Require Import Consts Base Frame F64 FrameQueue SendRate HalfConn HcLemmas SendRateProofs HcCredit.
 
 Theorem C13_rate_le_ceiling :
   forall m ops, MSS <= m -> sr_rate (fold_left rate_step ops (src_new m)) <= m.
@@ -32,8 +34,23 @@ Theorem C13_credit_capped_by_rate_times_rtt :
 Proof. exact fill_flush_alloc_capped. Qed.
 Print Assumptions C13_credit_capped_by_rate_times_rtt.
 
+(* a whole flush: every emitted byte is charged, and frames only start while the credit is non-negative *)
+Theorem C13_flush_charges_every_byte :
+  forall h h' out, hc_flush h = Ok (h', out) ->
+    (h_credit h' = h_credit h - bytes_of out)%Z /\ lastfit (h_credit h') out.
+Proof. exact hc_flush_credit. Qed.
+Print Assumptions C13_flush_charges_every_byte.
+
+Theorem C13_flush_within_credit :
+  forall h h' out, hc_flush h = Ok (h', out) ->
+    ((h_credit h < 0)%Z -> out = []) /\
+    (forall pre l, out = pre ++ [l] -> (bytes_of pre <= h_credit h)%Z).
+Proof. exact hc_flush_within_credit. Qed.
+
 Theorem C13_frame_length :
   forall seq nonce enc count, len (Codec.build_data_frame seq nonce enc count) = 6 + len enc + 4.
 Proof. exact build_data_frame_len. Qed.
 
 Check C13_rate_le_ceiling : forall m ops, MSS <= m -> sr_rate (fold_left rate_step ops (src_new m)) <= m.
+Check C13_flush_within_credit : forall h h' out, hc_flush h = Ok (h', out) ->
+    ((h_credit h < 0)%Z -> out = []) /\ (forall pre l, out = pre ++ [l] -> (bytes_of pre <= h_credit h)%Z).
